@@ -34,6 +34,9 @@ def gen(t):
     a('w_cmpt', 'int& o, const %s& x, const %s& y, const %s& t' % (E, E, E), 'o = cmpt(x, y, t);', k='cmpt')
     a('w_iszero', 'bool& o, const %s& x, const %s& t' % (E, E), 'o = iszero(x, t);', k='iszero')
     a('w_equal', 'bool& o, const %s& x, const %s& y, const %s& t' % (E, E, E), 'o = equal(x, y, t);', k='equal')
+    # mixed operand types: the difference is formed, and its magnitude taken, in the common type of the two operands
+    for ta, tb in (('int', 'double'), ('double', 'int'), ('float', 'double'), ('double', 'float'), ('int', 'float'), ('short', 'double')):
+        a('w_equal_%s_%s' % (ta, tb), 'bool& o, const %s& x, const %s& y, const double& t' % (ta, tb), 'o = equal(x, y, t);', k='equalmix', ta=ta, tb=tb)
     a('w_lerp', '%s& o, const %s& x, const %s& y, const %s& t' % (E, E, E, E), 'o = IMATH_INTERNAL_NAMESPACE::lerp(x, y, t);', k='lerp')
     a('w_ulerp', '%s& o, const %s& x, const %s& y, const %s& t' % (E, E, E, E), 'o = ulerp(x, y, t);', k='ulerp')
     a('w_lerpfactor', '%s& o, const %s& m, const %s& x, const %s& y' % (E, E, E, E), 'o = lerpfactor(m, x, y);', k='lerpfactor')
@@ -366,6 +369,36 @@ def main(rep, ws, tier):
                             c, a_, b_ = l.args
                             if {a_.id, b_.id} == {v.id, T.fneg(v).id} or {a_.id, b_.id} == {v.id, T.binop('fsub', X('a2'), X('a1'), lt).id}: ok = True
                     rep.ob(oid, 'R17.poly' if k == 'eqabs' else 'R17.ord', HOLDS if ok else VIOLATED, '|%s| <= tolerance' % ('a' if k == 'iszero' else 'a - b') if ok else 'predicate is %s' % T.show(o, 4)[:200], where)
+                elif k in ('equalmix', 'iszeromix'):
+                    if t != types[0]: continue              # element-type independent: once
+                    oid = name[2:]
+                    o = bool_of(S.out('a0', 0, 1, 'i8'))
+                    TY = {'int': ('i32', 4), 'short': ('i16', 2), 'float': ('float', 4), 'double': ('double', 8)}
+                    RANK = ['short', 'int', 'float', 'double']
+                    def operand(base, ty, common):
+                        lt_, sz_ = TY[ty]
+                        x = T.inp(base, 0, sz_, lt_)
+                        if ty == 'short' and common == 'int': x = T.cast('sext', x, 'i16', 'i32'); lt_ = 'i32'; ty = 'int'
+                        if ty == common: return x
+                        return T.cast('sitofp' if lt_.startswith('i') else 'fpext', x, lt_, TY[common][0])
+                    tol = T.inp('a3' if k == 'equalmix' else 'a2', 0, 8, 'double')
+                    if k == 'equalmix':
+                        common = max(m['ta'], m['tb'], key=RANK.index)
+                        if common == 'short': common = 'int'
+                        clt = TY[common][0]
+                        va, vb = operand('a1', m['ta'], common), operand('a2', m['tb'], common)
+                        v = T.binop('fsub', va, vb, clt); vr = T.binop('fsub', vb, va, clt)
+                    else:
+                        common = m['ta']; clt = TY[common][0]
+                        v = operand('a1', m['ta'], common); vr = None
+                    ok = False; l = None
+                    if o.op == 'fcmp' and o.attr == 'ole' and o.args[1] is tol:
+                        l = o.args[0]
+                        # the magnitude, widened to the tolerance's type after it is taken
+                        while l.op in ('fpext', 'sitofp'): l = l.args[0]
+                        if l.op == 'absi' and (l.args[0] is v or l.args[0] is T.fneg(v) or l.args[0] is vr) and l.ty == clt: ok = True
+                    rep.ob(oid, 'R17.ord', HOLDS if ok else VIOLATED, '|%s| <= tolerance, magnitude taken in %s' % ('a' if vr is None else 'a - b', common) if ok else
+                           'predicate is %s; expected |%s| <= t with the difference and its magnitude in the operands\' common type %s' % (T.show(o, 5)[:200], T.show(v, 3), common), where)
                 elif k == 'eqrel':
                     o = bool_of(S.out('a0', 0, 1, 'i8'))
                     x, y, e = X('a1'), X('a2'), X('a3')
